@@ -9,7 +9,7 @@
    NOT verified (modelled): threading.RLock itself, the GIL, atomicity of a single Python read. *)
 From Coq Require Import List ZArith Bool Arith.
 From NTGen Require Import Generated.
-From NT Require Import RLock Skeleton RLockProofs SkeletonProofs.
+From NT Require Import Sx RLock Skeleton RLockProofs SkeletonProofs CaseLock.
 Import ListNotations.
 
 (* ---------------- the machine, all schedules ---------------- *)
@@ -214,3 +214,12 @@ Example C18_D38_unbracketed_read_refuted :
   map (fun e => (e_ver e, e_owner e)) (filter (fun e => (e_tid e =? 1) && ev_eqb (e_ev e) ERead) (hist s))
     = [(1, Some 0); (2, Some 1)].
 Proof. vm_compute. repeat split. Qed.
+
+(* the correspondence entry point (importing CaseLock here also makes `make Properties/C18.vo`
+   rebuild it whenever the generated facts change): the trace recorded for TypedTree.save(path)
+   is an unfolding of the generated skeleton, bracketed, one section, no write; with a writer
+   parked after 1 of 3 mutations the reader is blocked and then sees version 3 only *)
+Example C18_run18_example :
+  run18 (CPark [116; 121; 112; 101; 100; 95; 115; 97; 118; 101]%Z [0; 2; 0; 0; 2; 1; 1; 1]%Z 1 2)
+  = L [L [A 1; A 1; A 1; A 0]; L [A 0; A 1; L [A 3]; A 1]]%Z.
+Proof. vm_compute. reflexivity. Qed.
